@@ -42,6 +42,9 @@ In your final answer, list for each change: one-line summary, what it needs to m
 DIVERSE = '''
      Earlier reviewers have already tried the most obvious edits at the most obvious places (the key / hash computation, the load-or-run condition, adding a cache). Prefer less obvious sites named in the anchors (helpers, data classes, utility functions, less used parameters and modes) and less obvious kinds of mistake (a changed default, an argument passed positionally to the wrong parameter, an `or` / `and` slip, a loop that stops early, a copy that became an alias or vice versa, a wrong exception class, a comparison on the wrong attribute).'''
 
+ANGLES = '''
+     Make the three changes come from three different angles: (A) an interaction - an edit in one function that is harmless on its own but breaks an assumption another function, class or caller relies on; (B) a rarely exercised corner - a less used data class, mode, option, helper or entry point named in the anchors (or reachable from them) that the tests never touch; (C) a failure path - what happens after an exception, an interrupted process, a partial write or a retry.'''
+
 AVOID = '''
      At most ONE of the three changes may consist of adding a cache / memo / stored flag; the others must be of a different kind (conditions, ordering of statements, arguments passed, names / keys / paths computed, error handling, iteration, copying vs aliasing, locking, what is written where).'''
 
@@ -75,7 +78,7 @@ def main():
     kind, ids, wt = sys.argv[1], sys.argv[2].split(','), sys.argv[3]
     if kind == 'seeded':
         p = PROPS[ids[0]]
-        print(SEEDED.format(wt=wt, prop=json.dumps(p, indent=1), pid=ids[0], extra=(AVOID if '--avoid-caches' in sys.argv else '') + (DIVERSE if '--diverse' in sys.argv else '')))
+        print(SEEDED.format(wt=wt, prop=json.dumps(p, indent=1), pid=ids[0], extra=(AVOID if '--avoid-caches' in sys.argv else '') + (DIVERSE if '--diverse' in sys.argv else '') + (ANGLES if '--angles' in sys.argv else '')))
     else:
         recs = []
         for i in ids:
